@@ -187,6 +187,7 @@ func c05(r *ev.Reporter, args []string) {
 			}
 		}
 	}
+	bounds = append(bounds, c05Partition(r)...)
 	iso := c05Isolation(r)
 	fmt.Println(iso[0])
 	bounds = append(bounds, iso...)
@@ -297,4 +298,47 @@ func c05Isolation(r *ev.Reporter) []string {
 		fmt.Fprintf(&sb, "%d:%d ", k, hist[k])
 	}
 	return []string{fmt.Sprintf("isolation family (replica 3 cut off for k in %v views, every leader pattern of period 4 over %v, then led by each of %v in turn): %d runs; views after the heal until the last replica committed a new block -> number of runs: %s(999 = not within 3k+11 views)", ks, ids, rotations, len(jobs), sb.String())}
+}
+
+// c05Partition: the replicas are split two against two (no quorum on either side) while every
+// replica's view timer fires 1..4 times, then all are connected again. A replica's timer is a
+// one-shot timer: it can fire again only if the replica has re-armed it. Every replica has to commit
+// a new block within 3*ChainLength+2 (+4 for the views that differ at the heal) views of the heal.
+func c05Partition(r *ev.Reporter) []string {
+	const bound = 3*3 + 2 + 4
+	runs, worst := 0, 0
+	for _, rs := range []string{"chainedhotstuff", "simplehotstuff"} {
+		for _, mask := range []uint32{0b0011, 0b0101, 0b1001} {
+			for rounds := 1; rounds <= 4; rounds++ {
+				res := cluster.PartitionRun(cluster.Config{N: 4, Rules: rs, Cache: 100}, mask, rounds, bound)
+				r.Count(1, int64(res.Events), 1, 1)
+				runs++
+				if res.Broken != "" {
+					r.Cap(fmt.Sprintf("partition run %s mask=%04b rounds=%d abandoned: %s", rs, mask, rounds, res.Broken))
+					continue
+				}
+				var late []string
+				for id := hotstuff.ID(1); id <= 4; id++ {
+					d := res.CommitView[id] - int(res.HealView)
+					if res.CommitView[id] < 0 {
+						late = append(late, fmt.Sprint(id))
+					} else if d > worst {
+						worst = d
+					}
+				}
+				if len(late) > 0 {
+					tail := res.Trace
+					if len(tail) > 60 {
+						tail = tail[len(tail)-60:]
+					}
+					r.Violation(fmt.Sprintf("C05 %s: no new commit within the view bound after a partition without quorum healed", rs),
+						fmt.Sprintf("%s n=4, slots split %04b (two against two) while every view timer fired %d times, then all connected, lock-step schedule with one-shot timers: replicas [%s] have not committed a new block %d views after the heal (views reached: heal %d, highest %d; %d events)", rs, mask, rounds, strings.Join(late, " "), bound, res.HealView, res.MaxView, res.Events),
+						map[string]any{"ruleset": rs, "mask": mask, "rounds": rounds, "last_events": tail})
+				}
+			}
+		}
+	}
+	out := fmt.Sprintf("two-against-two partition family: %d runs (3 splits x 1..4 timer rounds x {chained, simple}); worst case %d views from the heal to the last replica's new commit", runs, worst)
+	fmt.Println(out)
+	return []string{out}
 }
